@@ -43,7 +43,14 @@ POINTS = {
     ("pandera/api/dataframe/container.py", "coerce_dtype"),
     ("pandera/backends/pandas/array.py", "coerce_dtype"), ("pandera/backends/pandas/components.py", "coerce_dtype"),
     ("pandera/backends/pandas/container.py", "_coerce_column"), ("pandera/backends/pandas/container.py", "_try_coercion"),
+    ("pandera/backends/polars/container.py", "run_schema_component_checks"),
+    ("pandera/backends/polars/container.py", "collect_schema_components"),
+    ("pandera/backends/polars/container.py", "_coerce_dtype_helper"),
+    ("pandera/backends/polars/components.py", "coerce_dtype"), ("pandera/backends/polars/components.py", "run_checks"),
+    ("pandera/backends/polars/base.py", "run_check"),
 }
+# files in which *every* function call is a gate (process-global registries shared by all schemas and backends)
+POINT_FILES = ("pandera/api/function_dispatch.py", "pandera/backends/pandas/register.py", "pandera/backends/polars/register.py")
 
 
 class Sched:
@@ -79,6 +86,9 @@ class Sched:
                     if nm == n and fn.endswith(f):
                         self.wait_turn(name)
                         break
+                else:
+                    if fn.endswith(POINT_FILES):
+                        self.wait_turn(name)
             return None
         return tr
 
@@ -200,7 +210,29 @@ def jobsets():
             bad = pd.DataFrame({"a": [-1]})
             return {"schemas": [sp, sd], "jobs": {"A": lambda: sp.validate(lf), "B": lambda: sd.validate(bad)},
                     "region": None, "name": "polars-lazyframe-vs-pandas"}
-        sets += [polars_shared, polars_pandas]
+        def polars_shared_coerce():
+            s = pap.DataFrameSchema({"a": pap.Column(int, pap.Check.gt(0), coerce=True), "b": pap.Column(float)})
+            good = pl.DataFrame({"a": ["1", "2"], "b": [1.0, 2.0]})
+            bad = pl.DataFrame({"a": ["1", "-2"], "b": [1.0, 2.0]})
+            return {"schemas": [s], "jobs": {"A": lambda: s.validate(good), "B": lambda: s.validate(bad)},
+                    "region": None, "name": "polars-same-schema-coercing-column"}
+
+        def polars_shared_frame_dtype():
+            s = pap.DataFrameSchema({"a": pap.Column(pl.Int64, pap.Check.gt(0))}, dtype=pl.Int64, coerce=True)
+            good = pl.DataFrame({"a": ["1", "2"]})
+            bad = pl.DataFrame({"a": ["1", "-2"]})
+            return {"schemas": [s], "jobs": {"A": lambda: s.validate(good), "B": lambda: s.validate(bad)},
+                    "region": None, "name": "polars-same-schema-frame-dtype"}
+
+        def polars_pandas_same_builtin():
+            # different schemas and Check objects, the same built-in check names on both backends
+            sp = pap.DataFrameSchema({"a": pap.Column(int, [pap.Check.gt(0), pap.Check.isin([1, 2, 3])])})
+            sd = pa.DataFrameSchema({"a": pa.Column(int, [pa.Check.gt(0), pa.Check.isin([1, 2, 3])])})
+            pdf = pl.DataFrame({"a": [1, 2]})
+            ddf = pd.DataFrame({"a": [1, -2]})
+            return {"schemas": [sp, sd], "jobs": {"A": lambda: sp.validate(pdf), "B": lambda: sd.validate(ddf)},
+                    "region": None, "name": "polars-dataframe-vs-pandas-same-builtins"}
+        sets += [polars_shared, polars_pandas, polars_shared_coerce, polars_shared_frame_dtype, polars_pandas_same_builtin]
     except Exception:  # noqa: BLE001
         pass
     return sets
